@@ -495,8 +495,15 @@ def _run(process_program, process_res):
             tmpdir = tempfile.mkdtemp()
             res = []
             batches = get_batches(iteration - 1)
+            used_packages = set()
             for i in range(batches):
                 packages = (utils.random.word(), utils.random.word())
+                # gen_program resets the word pool, so a package name of
+                # this batch can be drawn again; programs of one batch must
+                # not share a package (they would overwrite each other).
+                while used_packages.intersection(packages):
+                    packages = (utils.random.word(), utils.random.word())
+                used_packages.update(packages)
                 dirname = os.path.join(tmpdir, 'src')
                 pid = iteration + i
                 r = process_program(pid, dirname, packages)
